@@ -8,6 +8,9 @@ type Step struct {
 	Blob        int    `json:"blob"`                   // index into Spec.Blobs
 	Chunk       [2]int `json:"chunk,omitempty"`        // uppatch: [start, end)
 	PieceLength int64  `json:"piece_length,omitempty"` // refresh, overwritemi
+	// uppatch / refresh: the bytes sent differ from the blob in one byte, so the
+	// commit under the blob's digest must be rejected
+	Corrupt bool `json:"corrupt,omitempty"`
 }
 
 // Spec is a complete workload on one CAStore.
@@ -34,9 +37,11 @@ type RecoverReq struct {
 
 // BlobObs is what the restarted origin says about one listed name.
 type BlobObs struct {
-	HasData bool   `json:"has_data"`
-	ReadErr string `json:"read_err,omitempty"`
-	Bytes   []byte `json:"bytes"`
+	HasData bool `json:"has_data"`
+	// the store said "not exist" although <cache>/<shards>/<name>/data is on disk
+	DataOnDisk bool   `json:"data_on_disk,omitempty"`
+	ReadErr    string `json:"read_err,omitempty"`
+	Bytes      []byte `json:"bytes"`
 	// GET /internal/namespace/<ns>/blobs/<d>/metainfo, polled while 202
 	Statuses     []int  `json:"statuses"`
 	MetaInfo     []byte `json:"metainfo,omitempty"` // body of the final 200
